@@ -497,6 +497,15 @@ def gen_case(rng: common.Rng, topo: str | None = None) -> dict[str, Any]:
     elif topo == "weak3":
         reads = [[], [0], rng.pick([[1], [0, 1]])]
         cout[2] = []
+    # a further discipline that computes functions of the design variables only (no coupling in, no coupling out):
+    # in IDF its functions select design variables that sit among the couplings in the design space, in MDF /
+    # DisciplinaryOpt the same names are the whole (or a part of the) design space
+    design_only = None
+    if rng.chance(0.4):
+        design_only = n
+        n += 1
+        cout.append([])
+        reads.append([])
     size: dict[str, int] = {}
     for names in cout:
         for k in names:
@@ -528,9 +537,14 @@ def gen_case(rng: common.Rng, topo: str | None = None) -> dict[str, Any]:
         if rng.chance(0.2):
             size[f"p{i + 1}"] = rng.pick([1, 2])
             params[i].append(f"p{i + 1}")
+    if design_only is not None and rng.chance(0.6):
+        # ... reading every design variable read by the coupled disciplines (the names MDF selects)
+        dins[design_only] = sorted({v for d in dins for v in d})
     for i in range(n):
         if not (dins[i] or cin[i]):
             dins[i].append("xs")
+    # optional inputs: design variables (and fixed parameters) that the input grammar does not require
+    opt_mode = rng.pick(["none", "none", "some", "some", "all"])
     # anchor: the exact solution is dyadic at (x0, y0)
     cpl_all = sorted({k for got in cin for k in got})
     dvars = sorted({v for d in dins for v in d})
@@ -621,10 +635,14 @@ def gen_case(rng: common.Rng, topo: str | None = None) -> dict[str, Any]:
             declare = lin_outs
         elif mode == "some":
             declare = [o for o in lin_outs if rng.chance(0.5)]
+        optional = [v for v in ins if (v in dins[i] and (opt_mode == "all" or (opt_mode == "some" and rng.chance(0.5))))
+                    or (v in params[i] and opt_mode != "none" and rng.chance(0.3))]
         discs.append({"name": f"D{i + 1}", "ins": [[v, size[v]] for v in ins], "defaults": defaults, "outs": outs,
-                      "declare_linear": declare,
+                      "declare_linear": declare, "optional": optional,
                       "jac_storage": rng.pick(["dense", "dense", "csr", "csr", "csc", "coo", "mixed", "mixed"])})
     case: dict[str, Any] = {"topo": topo, "discs": discs, "vanish": vanish}
+    if design_only is not None:
+        case["design_only"] = f"D{design_only + 1}"
     # constants of the couplings so that y0 solves the system at x0
     point0 = {**x0, **y0}
     for d in discs:
@@ -750,6 +768,13 @@ def gen_case(rng: common.Rng, topo: str | None = None) -> dict[str, Any]:
     case["par"] = {"n": rng.pick([2, 2, 3]), "norm0": rng.chance(0.5), "procs": rng.chance(1 / 10)}
     case["doe"] = {"pick": rng.randrange(12), "normalize": rng.chance(1 / 3)}
     case["jacobi_threads"] = rng.chance(0.25)
+    # how the formulations of the case live together in the process: built and used one after the other (each one
+    # dropped before the next is built) or all built first and alive together, their functions being evaluated point
+    # by point in an interleaved order; the order in which they are built (and first evaluated): MDF first, IDF
+    # first (reversed), or mixed
+    case["session"] = {"alive": rng.chance(0.6), "order": rng.pick(["fwd", "rev", "mix"]),
+                       "keys": [rng.randrange(1000) for _ in range(16)], "rot": rng.pick([0, 1, 1, 2]),
+                       "doe_first": rng.chance(0.5)}
     return case
 
 
@@ -805,6 +830,14 @@ def valid_case(case) -> bool:
         if case.get("xdtype", "float64") not in ("float64", "int", "float32"):
             return False
         if any(d.get("jac_storage", "dense") not in ("dense", "csr", "csc", "coo", "mixed") for d in case["discs"]):
+            return False
+        for d in case["discs"]:
+            # optional inputs are inputs of the discipline that are not computed by another discipline
+            opt = d.get("optional", [])
+            if len(set(opt)) != len(opt) or any(v not in in_sizes(d) or v in cpl for v in opt):
+                return False
+        sess = case.get("session") or {}
+        if sess.get("order", "fwd") not in ("fwd", "rev", "mix") or len(sess.get("keys", [0] * 16)) < 16:
             return False
         # contractive couplings: max-norm of the coupling matrix <= 1/2
         for k in cpl:
@@ -877,7 +910,7 @@ def build_discs(case):
         }
         defaults = {k: [float(P(a)) for a in v] for k, v in d.get("defaults", {}).items()}
         out.append(QDisc(d["name"], {n: s for n, s in d["ins"]}, outs, d.get("declare_linear", ()), defaults,
-                         jac_storage=d.get("jac_storage", "dense")))
+                         jac_storage=d.get("jac_storage", "dense"), optional=d.get("optional", ())))
     return out
 
 
@@ -1064,54 +1097,70 @@ def observe_in_subprocess(case, cfg) -> dict[str, Any]:
     return {"cfg": cfg, "skipped": f"helper exit {r.returncode}: {r.stderr[-300:]}"}
 
 
-def observe_config(case, cfg, fpts, in_process: bool = False) -> dict[str, Any]:
-    """Observable behaviour of one formulation on the case.
+class Observer:
+    """One formulation of a case, alive in the process: built once, its function objects evaluated point by point
+    (every array they return is held), finished when the caller decides (the held arrays are then read again and the
+    problem-level entry point is used).  Several observers may be alive together and stepped in any interleaving:
+    what each one observes must not depend on the others."""
 
-    The same function objects are evaluated at all the points, one after the other, and every array they
-    return is held until the end (`held_vals` / `held_jacs` are read from the held objects after the last call).
-    """
-    if is_process_parallel(cfg) and not in_process:
-        return observe_in_subprocess(case, cfg)
-    obs: dict[str, Any] = {"cfg": cfg}
-    try:
-        form, discs = make_formulation(case, cfg)
-    except Exception as e:  # noqa: BLE001
-        obs["error"] = common.exc_class(e)
-        obs["error_msg"] = repr(e)[:300]
-        return obs
-    pb = form.optimization_problem
-    names = list(pb.design_space.variable_names)
-    obs["names"] = names
-    obs["sizes"] = [int(pb.design_space.get_size(n)) for n in names]
-    funcs = [pb.objective, *pb.constraints, *pb.observables]
-    obs["n_funcs"] = len(funcs)
-    obs["f_types"] = [str(getattr(getattr(f, "f_type", ""), "value", getattr(f, "f_type", ""))) for f in funcs]
-    if cfg["form"] == "IDF" and cfg.get("eq") and pb.design_space.has_current_value:
-        cur = pb.design_space.get_current_value(as_dict=True)
-        obs["current"] = {n: _val(cur[n]) for n in names}
-    evals = []
-    shared = case.get("xmode") == "shared"
-    obs["xmode"] = "shared" if shared else "fresh"
-    xdtype = case.get("xdtype", "float64")
-    xbufs: dict[str, np.ndarray] = {}  # the caller's own input arrays (one per dtype), updated in place (shared mode)
-    held = []
-    # processes: every discipline execution forks; two points are enough to see the configuration
-    pts = list(fpts[:2] if is_process_parallel(cfg) else fpts)
-    if "current" in obs:
-        # the point IDF installed itself as the multidisciplinary solution of the current design point
-        cpl = set(couplings(case))
-        pts.insert(0, {"kind": "start", "xf": {n: v for n, v in obs["current"].items() if n not in cpl},
-                       "tf": {n: v for n, v in obs["current"].items() if n in cpl}, "ystar_f": None})
-    for p in pts:
+    def __init__(self, case, cfg, fpts) -> None:
+        self.case, self.cfg, self.fpts = case, cfg, fpts
+        self.obs: dict[str, Any] = {"cfg": cfg}
+        self.ok = False
+        self.evals: list[dict[str, Any]] = []
+        self.held: list[Any] = []
+        self.pts: list[dict[str, Any]] = []
+
+    def build(self) -> None:
+        case, cfg, obs = self.case, self.cfg, self.obs
+        try:
+            self.form, self.discs = make_formulation(case, cfg)
+        except Exception as e:  # noqa: BLE001
+            obs["error"] = common.exc_class(e)
+            obs["error_msg"] = repr(e)[:300]
+            return
+        pb = self.pb = self.form.optimization_problem
+        names = self.names = list(pb.design_space.variable_names)
+        obs["names"] = names
+        obs["sizes"] = [int(pb.design_space.get_size(n)) for n in names]
+        funcs = self.funcs = [pb.objective, *pb.constraints, *pb.observables]
+        obs["n_funcs"] = len(funcs)
+        obs["f_types"] = [str(getattr(getattr(f, "f_type", ""), "value", getattr(f, "f_type", ""))) for f in funcs]
+        if cfg["form"] == "IDF" and cfg.get("eq") and pb.design_space.has_current_value:
+            cur = pb.design_space.get_current_value(as_dict=True)
+            obs["current"] = {n: _val(cur[n]) for n in names}
+        self.shared = case.get("xmode") == "shared"
+        obs["xmode"] = "shared" if self.shared else "fresh"
+        self.xdtype = case.get("xdtype", "float64")
+        self.xbufs: dict[str, np.ndarray] = {}  # the caller's own input arrays (one per dtype), updated in place (shared mode)
+        # processes: every discipline execution forks; two points are enough to see the configuration
+        pts = list(self.fpts[:2] if is_process_parallel(cfg) else self.fpts)
+        if "current" in obs:
+            # the point IDF installed itself as the multidisciplinary solution of the current design point
+            cpl = set(couplings(case))
+            pts.insert(0, {"kind": "start", "xf": {n: v for n, v in obs["current"].items() if n not in cpl},
+                           "tf": {n: v for n, v in obs["current"].items() if n in cpl}, "ystar_f": None})
+        self.pts = pts
+        self.ok = True
+
+    def n_steps(self) -> int:
+        return len(self.pts) if self.ok else 0
+
+    def step(self, i: int) -> None:
+        """Evaluate every function of the formulation at the i-th point of its history."""
+        if not self.ok or i >= len(self.pts):
+            return
+        case, cfg, names, funcs, shared = self.case, self.cfg, self.names, self.funcs, self.shared
+        p = self.pts[i]
         for tag, point in eval_todo(cfg, p):
             rec: dict[str, Any] = {"tag": tag, "kind": p["kind"], "point": point}
             try:
-                xv, rec["dtype"] = typed_vector(point_vector(case, names, point), xdtype)
+                xv, rec["dtype"] = typed_vector(point_vector(case, names, point), self.xdtype)
                 if shared:
-                    if rec["dtype"] not in xbufs:
-                        xbufs[rec["dtype"]] = np.empty_like(xv)
-                    xbufs[rec["dtype"]][:] = xv
-                    xv = xbufs[rec["dtype"]]
+                    if rec["dtype"] not in self.xbufs:
+                        self.xbufs[rec["dtype"]] = np.empty_like(xv)
+                    self.xbufs[rec["dtype"]][:] = xv
+                    xv = self.xbufs[rec["dtype"]]
                 rec["vals"] = []
                 rec["jacs"] = []
                 raw_v, raw_j = [], []
@@ -1123,45 +1172,80 @@ def observe_config(case, cfg, fpts, in_process: bool = False) -> dict[str, Any]:
                 # second evaluation at the same point: masks and adapter buffers are reused
                 v2 = _val(funcs[0].evaluate(xv if shared else xv.copy()))
                 rec["again"] = v2 == rec["vals"][0]
-                held.append((rec, raw_v, raw_j))
+                self.held.append((rec, raw_v, raw_j))
             except Exception as e:  # noqa: BLE001
                 rec["error"] = common.exc_class(e)
                 rec["error_msg"] = repr(e)[:300] + common.short_tb(e, 3)
-            evals.append(rec)
-    for rec, raw_v, raw_j in held:
-        try:
-            rec["held_vals"] = [_val(v) for v in raw_v]
-            rec["held_jacs"] = [_jac(j, 0) for j in raw_j]
-        except Exception as e:  # noqa: BLE001
-            rec["held_error"] = repr(e)[:200]
-    # problem-level entry point: the point is installed as the current value of the design space and the
-    # functions are evaluated through `OptimizationProblem.evaluate_functions` without a design vector (the array
-    # the functions receive is then the design space's own current-value array: int64 for an all-integer space)
-    if len({f.name for f in funcs}) == len(funcs) and not is_process_parallel(cfg):
-        done = 0
-        for p in reversed(pts):
-            if done >= 2:
-                break
-            todo = [tp for tp in eval_todo(cfg, p) if tp[0] != "consistent"]
-            for tag, point in todo[:1]:
-                if p["kind"] == "start" or any(n not in point for n in names) or not in_bounds(case, {n: point[n] for n in names}):
-                    continue  # (a design space that is not the expected one is reported by the names oracle)
-                done += 1
-                rec = {"tag": tag, "kind": p["kind"], "point": point, "via": "evaluate_functions@current", "again": True}
-                try:
-                    xv, _ = typed_vector(point_vector(case, names, point), xdtype)
-                    pb.design_space.set_current_value(xv)
-                    rec["dtype"] = str(pb.design_space.get_current_value().dtype)
-                    out, jac = pb.evaluate_functions(design_vector=None, design_vector_is_normalized=False,
-                                                     output_functions=funcs, jacobian_functions=funcs)
-                    rec["vals"] = [_val(out[f.name]) for f in funcs]
-                    rec["jacs"] = [_jac(jac[f.name], len(v)) for f, v in zip(funcs, rec["vals"])]
-                except Exception as e:  # noqa: BLE001
-                    rec["error"] = common.exc_class(e)
-                    rec["error_msg"] = repr(e)[:300] + common.short_tb(e, 3)
-                evals.append(rec)
-    obs["evals"] = evals
-    return obs
+            self.evals.append(rec)
+
+    def finish(self) -> dict[str, Any]:
+        if not self.ok:
+            return self.obs
+        case, cfg, names, funcs, pb, evals = self.case, self.cfg, self.names, self.funcs, self.pb, self.evals
+        for rec, raw_v, raw_j in self.held:
+            try:
+                rec["held_vals"] = [_val(v) for v in raw_v]
+                rec["held_jacs"] = [_jac(j, 0) for j in raw_j]
+            except Exception as e:  # noqa: BLE001
+                rec["held_error"] = repr(e)[:200]
+        # problem-level entry point: the point is installed as the current value of the design space and the
+        # functions are evaluated through `OptimizationProblem.evaluate_functions` without a design vector (the array
+        # the functions receive is then the design space's own current-value array: int64 for an all-integer space)
+        if len({f.name for f in funcs}) == len(funcs) and not is_process_parallel(cfg):
+            done = 0
+            for p in reversed(self.pts):
+                if done >= 2:
+                    break
+                todo = [tp for tp in eval_todo(cfg, p) if tp[0] != "consistent"]
+                for tag, point in todo[:1]:
+                    if p["kind"] == "start" or any(n not in point for n in names) or not in_bounds(case, {n: point[n] for n in names}):
+                        continue  # (a design space that is not the expected one is reported by the names oracle)
+                    done += 1
+                    rec = {"tag": tag, "kind": p["kind"], "point": point, "via": "evaluate_functions@current", "again": True}
+                    try:
+                        xv, _ = typed_vector(point_vector(case, names, point), self.xdtype)
+                        pb.design_space.set_current_value(xv)
+                        rec["dtype"] = str(pb.design_space.get_current_value().dtype)
+                        out, jac = pb.evaluate_functions(design_vector=None, design_vector_is_normalized=False,
+                                                         output_functions=funcs, jacobian_functions=funcs)
+                        rec["vals"] = [_val(out[f.name]) for f in funcs]
+                        rec["jacs"] = [_jac(jac[f.name], len(v)) for f, v in zip(funcs, rec["vals"])]
+                    except Exception as e:  # noqa: BLE001
+                        rec["error"] = common.exc_class(e)
+                        rec["error_msg"] = repr(e)[:300] + common.short_tb(e, 3)
+                    evals.append(rec)
+        self.obs["evals"] = evals
+        self.ok = False
+        return self.obs
+
+
+def observe_config(case, cfg, fpts, in_process: bool = False) -> dict[str, Any]:
+    """Observable behaviour of one formulation on the case, used alone.
+
+    The same function objects are evaluated at all the points, one after the other, and every array they
+    return is held until the end (`held_vals` / `held_jacs` are read from the held objects after the last call).
+    """
+    if is_process_parallel(cfg) and not in_process:
+        return observe_in_subprocess(case, cfg)
+    o = Observer(case, cfg, fpts)
+    o.build()
+    for i in range(o.n_steps()):
+        o.step(i)
+    return o.finish()
+
+
+def session_order(case, cfgs: list[dict[str, Any]]) -> list[dict[str, Any]]:
+    """The order in which the formulations of the case are built and first used (`case["session"]["order"]`): the
+    canonical order (MDF, then IDF, then DisciplinaryOpt), the reverse order, or a mixed order."""
+    sess = case.get("session") or {}
+    order = sess.get("order", "fwd")
+    canon = [cfg_key(c) for c in configs(case)]
+    if order == "rev":
+        return list(reversed(cfgs))
+    if order == "mix":
+        keys = sess.get("keys") or [0] * 16
+        return sorted(cfgs, key=lambda c: (keys[canon.index(cfg_key(c)) % len(keys)], canon.index(cfg_key(c))))
+    return list(cfgs)
 
 
 def doe_label(cfg, normalize: bool) -> str:
@@ -1922,17 +2006,50 @@ def check_one(case, rng_mask: common.Rng | None, only: list[str] | None = None):
     obs_by_key: dict[str, Any] = {}
     bad: list[tuple[str, str]] = []
     mask_recs = []
+    sess = case.get("session") or {}
+    cfgs = session_order(case, [cfg for cfg in configs(case) if only is None or cfg_key(cfg) in only])
+    doe = doe_config(case)
+    if doe is not None and not (only is None or "DOE" in only):
+        doe = None
+    doe_obs = None
+    got: dict[str, Any] = {}
+    if sess.get("alive"):
+        # all the formulations are built first and stay alive; their functions are evaluated point by point, the
+        # formulations taking turns (rotating who goes first); the DOE scenario (its own formulation) runs in
+        # between or at the end; nothing is dropped before every formulation has been finished
+        observers: list[Observer] = []
+        for cfg in cfgs:
+            if is_process_parallel(cfg):
+                got[cfg_key(cfg)] = observe_in_subprocess(case, cfg)
+                continue
+            o = Observer(case, cfg, fpts)
+            o.build()
+            observers.append(o)
+        if doe is not None and sess.get("doe_first"):
+            doe_obs = observe_doe(case, doe[0], doe[1], fpts)
+        rot = int(sess.get("rot", 0))
+        for i in range(max((o.n_steps() for o in observers), default=0)):
+            r = (i * rot) % len(observers)
+            for o in observers[r:] + observers[:r]:
+                o.step(i)
+        if doe is not None and doe_obs is None:
+            doe_obs = observe_doe(case, doe[0], doe[1], fpts)
+        for o in observers:
+            got[cfg_key(o.cfg)] = o.finish()
+        del observers
+    else:
+        for cfg in cfgs:
+            got[cfg_key(cfg)] = observe_config(case, cfg, fpts)
+        if doe is not None:
+            doe_obs = observe_doe(case, doe[0], doe[1], fpts)
     for cfg in configs(case):
         ck = cfg_key(cfg)
-        if only is not None and ck not in only:
-            continue
-        obs = observe_config(case, cfg, fpts)
-        obs_by_key[ck] = obs
-        bad += oracle_config(case, obs)
+        if ck in got:
+            obs_by_key[ck] = got[ck]
+            bad += oracle_config(case, got[ck])
     bad += oracle_cross(case, obs_by_key)
-    doe = doe_config(case)
-    if doe is not None and (only is None or "DOE" in only):
-        obs = observe_doe(case, doe[0], doe[1], fpts)
+    if doe_obs is not None:
+        obs = doe_obs
         obs_by_key[obs["label"]] = obs
         if obs.get("probe"):
             obs["probe_mismatch"] = bool(oracle_doe(case, obs))
@@ -2019,6 +2136,26 @@ def _simplifications(case):
         c = copy.deepcopy(case)
         c["xmode"] = "fresh"
         yield c
+    # formulations used one after the other, in the canonical order; every input required
+    sess = case.get("session") or {}
+    if sess.get("alive"):
+        c = copy.deepcopy(case)
+        c["session"]["alive"] = False
+        yield c
+    if sess.get("order", "fwd") != "fwd":
+        c = copy.deepcopy(case)
+        c["session"]["order"] = "fwd"
+        yield c
+    if any(d.get("optional") for d in case["discs"]):
+        c = copy.deepcopy(case)
+        for d in c["discs"]:
+            d["optional"] = []
+        yield c
+        for di, d in enumerate(case["discs"]):
+            for v in d.get("optional", []):
+                c = copy.deepcopy(case)
+                c["discs"][di]["optional"] = [w for w in d["optional"] if w != v]
+                yield c
     # design-space order: alphabetical
     srt = sorted(case["ds"], key=lambda v: v["name"])
     if srt != case["ds"]:
@@ -2068,6 +2205,70 @@ def configs_of_key(msg: str) -> list[str] | None:
     return ks if all(k.startswith(("MDF", "IDF", "Disc")) for k in ks) else None
 
 
+def focus_configs(case, key: str, only: list[str]) -> list[str] | None:
+    """The configurations needed to reproduce a failure: those named by the message when they fail alone, else
+    with one other formulation of the case alive in the same process (a failure that needs company), else all."""
+    def fails(sub) -> bool:
+        try:
+            return any(k == key for k, _ in check_one(case, None, sub)[0])
+        except Exception:  # noqa: BLE001
+            return False
+
+    if fails(only):
+        return only
+    others = [cfg_key(c) for c in configs(case) if cfg_key(c) not in only and not is_process_parallel(c)] + ["DOE"]
+    for ck in others:
+        if ck not in only and fails([*only, ck]):
+            return [*only, ck]
+    return None
+
+
+def fresh_check(case, only: list[str] | None):
+    """The oracle's findings on the case in a fresh interpreter (what `--replay` will see), or None (no answer)."""
+    import subprocess
+    import sys
+
+    env = dict(os.environ)
+    env["PYTHONPATH"] = os.pathsep.join(p for p in [env.get("PYTHONPATH", ""), str(common.VERIF)] if p)
+    try:
+        r = subprocess.run(
+            [sys.executable, "-m", "harness.c17_proc"], input=json.dumps({"mode": "check", "case": case, "only": only}, default=str),
+            capture_output=True, text=True, timeout=PROC_TIMEOUT, cwd=str(common.VERIF), env=env,
+        )
+    except subprocess.TimeoutExpired:
+        return None
+    for line in reversed(r.stdout.splitlines()):
+        if line.startswith("C17-PROC-CHECK "):
+            return [tuple(t) for t in json.loads(line[len("C17-PROC-CHECK "):])]
+    return None
+
+
+def reproducible_replay(case, small, key: str, only: list[str] | None, msg: str):
+    """(case, configurations, message, note) of the smallest candidate that fails with `key` in a FRESH interpreter.
+
+    The harness process has a history (the formulations of the earlier cases, the earlier runs of this case while
+    shrinking); a failure that depends on state shared between formulation objects may not show on the shrunk input
+    alone.  Candidates: the shrunk case on the focused configurations, the shrunk case with all its formulations, the
+    case as generated with all its formulations."""
+    cands = [(small, only)]
+    if only is not None:
+        cands.append((small, None))
+    if small is not case:
+        cands.append((case, None))
+    answered = False
+    for c, o in cands:
+        got = fresh_check(c, o)
+        if got is None:
+            continue
+        answered = True
+        m = next((mm for k, mm in got if k == key), None)
+        if m is not None:
+            return c, o, m, ""
+    if not answered:
+        return small, only, msg, ""
+    return case, None, msg, " [seen in the harness process after it had used the formulations of earlier cases; the case alone does not show it in a fresh interpreter]"
+
+
 def starts_away_from_defaults(case) -> bool:
     """The current value of some design variable differs from the default input value of a discipline reading it."""
     for v in case["ds"]:
@@ -2099,6 +2300,36 @@ def run_case(res: Result, case, rng_mask, pending: list | None, origin: str) -> 
     if any(d.get("defaults") for d in case["discs"]):
         res.count("fixed-parameter")
     res.count(f"caller-input-array={case.get('xmode', 'fresh')}")
+    sess = case.get("session") or {}
+    res.count("formulations=" + ("alive-together-interleaved" if sess.get("alive") else "one-after-the-other") + f"/built-{sess.get('order', 'fwd')}")
+    if sess.get("alive") and doe_config(case) is not None:
+        res.count("doe-scenario-" + ("between-build-and-first-evaluation" if sess.get("doe_first") else "after-the-evaluations") + "-of-the-alive-formulations")
+    dsn_all = [v["name"] for v in case["ds"]]
+    cset = set(cpl)
+    pos = [k for k, nm in enumerate(dsn_all) if nm in cset]
+    for k, nm in enumerate(dsn_all):
+        if nm not in cset and pos:
+            res.count("design-variable-declared-" + ("before-the-couplings" if k < pos[0] else "after-the-couplings" if k > pos[-1] else "between-couplings"))
+    if case.get("design_only"):
+        dd = next((d for d in case["discs"] if d["name"] == case["design_only"]), None)
+        if dd is not None:
+            res.count("design-only-function-discipline")
+            if set(in_sizes(dd)) >= set(used_design_names(case)):
+                res.count("design-only-function-discipline-reading-every-design-variable")
+    # a discipline whose design-space inputs are exactly the names MDF / DisciplinaryOpt select, placed otherwise in IDF
+    exp_mdf = expected_names(case, "MDF")
+    for d in case["discs"]:
+        xn = [nm for nm in dsn_all if nm in in_sizes(d)]
+        if xn == exp_mdf and dsn_all[: len(xn)] != xn and not (set(in_sizes(d)) & cset):
+            res.count("idf-function-selects-the-mdf-design-space-at-other-positions")
+    n_opt = sum(len(d.get("optional", [])) for d in case["discs"])
+    res.count("optional-inputs-in-case", n_opt)
+    if n_opt:
+        res.count("case-with-optional-inputs")
+        for nm in used_design_names(case):
+            readers = [d for d in case["discs"] if nm in in_sizes(d)]
+            if readers and all(nm in d.get("optional", []) for d in readers):
+                res.count("design-variable-optional-in-every-discipline-reading-it")
     res.count(f"caller-point-dtype={case.get('xdtype', 'float64')}")
     ints = int_names(case)
     res.count("design-space-types=" + ("float" if not ints else "all-integer-design-variables" if ints >= set(design_names(case)) else "mixed-integer-float"))
@@ -2140,10 +2371,14 @@ def run_case(res: Result, case, rng_mask, pending: list | None, origin: str) -> 
         seen.add(key)
         only = configs_of_key(msg)
         # the first failing inputs of a run are shrunk; once several replays exist the rest is reported as generated
+        if only is not None and len(res.violations) < 6:
+            only = focus_configs(case, key, only)
         if len(res.violations) < 6:
             small = shrink_case(case, key, only)
             bad2, _, _ = check_one(small, None, only)
             msg2 = next((m for k, m in bad2 if k == key), msg)
+            small, only, msg2, note = reproducible_replay(case, small, key, only, msg2)
+            msg2 += note
         else:
             small, msg2 = case, msg
         res.violate("oracle", key, msg2, {"case": small, "origin": origin, "configs": only})
